@@ -8,6 +8,7 @@ import (
 	"sort"
 	"strings"
 	"sync"
+	"sync/atomic"
 	"testing/synctest"
 	"time"
 
@@ -29,15 +30,15 @@ type e2eSpec struct {
 	Files          []wsFile   `json:"files"`
 	Faults         []fault    `json:"faults,omitempty"`
 	Mutations      []mutation `json:"mutations,omitempty"`
-	QuietMutations []mutation `json:"mutations_when_quiet,omitempty"` // applied once everything has been delivered and confirmed
-	QuietGapHours  int        `json:"quiet_gap_h,omitempty"`          // virtual hours to let pass before them (ages the receiver's memory)
-	SenderCrashAt  []int      `json:"sender_crash_at,omitempty"`      // boundary action numbers (global count)
-	RecvCrashAt    []int      `json:"recv_crash_at,omitempty"`        // k-th mutating fs operation of the receiver (global count)
-	Downtime       int        `json:"downtime_s"`                     // virtual seconds a crashed side stays down
-	OwnOraclesOnly bool       `json:"own_oracles_only,omitempty"`      // crash enumeration: judge only the property's own oracle and C03 progress
+	QuietMutations []mutation `json:"mutations_when_quiet,omitempty"`   // applied once everything has been delivered and confirmed
+	QuietGapHours  int        `json:"quiet_gap_h,omitempty"`            // virtual hours to let pass before them (ages the receiver's memory)
+	SenderCrashAt  []int      `json:"sender_crash_at,omitempty"`        // boundary action numbers (global count)
+	RecvCrashAt    []int      `json:"recv_crash_at,omitempty"`          // k-th mutating fs operation of the receiver (global count)
+	Downtime       int        `json:"downtime_s"`                       // virtual seconds a crashed side stays down
+	OwnOraclesOnly bool       `json:"own_oracles_only,omitempty"`       // crash enumeration: judge only the property's own oracle and C03 progress
 	VanishAtCrash  []int      `json:"vanish_at_sender_crash,omitempty"` // these files disappear from the outgoing directory while the sender is down
-	PreDelivered   int        `json:"pre_delivered,omitempty"`        // first n files are delivered by an earlier run
-	Consume        bool       `json:"consume"`                        // delivered files are taken away by a consumer
+	PreDelivered   int        `json:"pre_delivered,omitempty"`          // first n files are delivered by an earlier run
+	Consume        bool       `json:"consume"`                          // delivered files are taken away by a consumer
 	Events         []wEvent   `json:"events_tail,omitempty"`
 	Note           string     `json:"note,omitempty"`
 }
@@ -131,8 +132,9 @@ func e2eRun(c *Ctx, seed int64, spec *e2eSpec, dir string) *e2eOutcome {
 	posPoll := map[string]bool{}
 	actions := 0
 	recvOps := 0
+	var lastDisruptNs atomic.Int64 // written from hooks on many goroutines
 	disrupt := func() {
-		out.lastDisrupt = w.vt()
+		lastDisruptNs.Store(int64(w.vt()))
 	}
 
 	// ---- online monitors (C02)
@@ -373,8 +375,8 @@ func e2eRun(c *Ctx, seed int64, spec *e2eSpec, dir string) *e2eOutcome {
 		w.fmu.Lock()
 		lf := w.lastFaultAt
 		w.fmu.Unlock()
-		if lf > out.lastDisrupt {
-			out.lastDisrupt = lf
+		if int64(lf) > lastDisruptNs.Load() {
+			lastDisruptNs.Store(int64(lf))
 		}
 		mu.Lock()
 		frozen = true
@@ -403,7 +405,7 @@ func e2eRun(c *Ctx, seed int64, spec *e2eSpec, dir string) *e2eOutcome {
 		mu.Lock()
 		frozen = false
 		mu.Unlock()
-		if w.vt()-out.lastDisrupt > bound {
+		if w.vt()-time.Duration(lastDisruptNs.Load()) > bound {
 			break
 		}
 	}
@@ -412,6 +414,7 @@ func e2eRun(c *Ctx, seed int64, spec *e2eSpec, dir string) *e2eOutcome {
 	frozen = true
 	mu.Unlock()
 	w.snd.stop <- true
+	out.lastDisrupt = time.Duration(lastDisruptNs.Load())
 	out.terminated = w.snd.waitDone(2 * time.Hour)
 	synctest.Wait()
 	mu.Lock()
@@ -619,7 +622,7 @@ func oracleSentLog(o *e2eOutcome, v vfn) {
 		if truth <= 0 {
 			continue
 		}
-		var rs, rsOther []iv // acknowledged ranges under this hash / under other hashes of the same name (same sender instance)
+		var rs, rsOther []iv              // acknowledged ranges under this hash / under other hashes of the same name (same sender instance)
 		announcedSend := map[int64]bool{} // "bytes to send for this file" as the part descriptors themselves said
 		for _, d := range o.reqs {
 			if d.End == 0 || d.End > e.VT {
